@@ -138,6 +138,52 @@ impl Model {
 	/// Possible final values of `key` at boundary `p` if the writes of commits selected by
 	/// `lossy` may each be independently missing (None = absent).
 	pub fn possible(&self, key: &[u8], p: u64, lossy: &dyn Fn(&Commit) -> bool) -> Vec<Option<Val>> {
+		self.possible2(key, p, lossy, &|_| false)
+	}
+
+	/// As `possible`, and additionally the writes of *failed* commits selected by `ghost`
+	/// may each be independently present.
+	pub fn possible2(&self, key: &[u8], p: u64, lossy: &dyn Fn(&Commit) -> bool, ghost: &dyn Fn(&Commit) -> bool) -> Vec<Option<Val>> {
+		let mut set: Vec<Option<Val>> = vec![None];
+		for c in self.commits.iter().filter(|c| c.last_seq <= p) {
+			if c.status == Status::Failed {
+				if ghost(c) {
+					for w in &c.writes {
+						if w.key == key {
+							let v = match w.kind {
+								Kind::Set | Kind::Replace => w.value.clone(),
+								_ => None,
+							};
+							if !set.contains(&v) {
+								set.push(v);
+							}
+						}
+					}
+				}
+				continue;
+			}
+			for w in &c.writes {
+				if w.key != key {
+					continue;
+				}
+				let v = match w.kind {
+					Kind::Set | Kind::Replace => w.value.clone(),
+					_ => None,
+				};
+				if lossy(c) {
+					if !set.contains(&v) {
+						set.push(v);
+					}
+				} else {
+					set = vec![v];
+				}
+			}
+		}
+		set
+	}
+
+	#[allow(dead_code)]
+	fn possible_old(&self, key: &[u8], p: u64, lossy: &dyn Fn(&Commit) -> bool) -> Vec<Option<Val>> {
 		let mut set: Vec<Option<Val>> = vec![None];
 		for c in self.visible(p) {
 			for w in &c.writes {
